@@ -861,3 +861,144 @@ def monitor_simple2(kind):
 
 SIMPLE2_RULE = ("v2 simplified discipline in a synctest bubble: Handle blocks until the driver lets the k-th running call return; operations put, "
                 "close, let-go, each followed by a settle; finale closes the inputs and lets every call return; non-trivial = at least two items")
+
+
+# ------------------------------------------------------------------ v1 simplified discipline (family 10, monitor only)
+def gen_simple1_scenario(rng, tier, ending=None):
+    from .props.c18 import ref_nonfatal
+    ps = list(rng.choice([[1], [2, 1], [3, 2, 1], [5, 1], [7, 5, 3, 1], [70, 20, 10], [4, 3]]))
+    kind = rng.randrange(2)
+    good = [h for h in range(1, 60) if ref_nonfatal(ps, kind, h)]
+    H = rng.choice(good[:6])
+    linger = rng.choice([0, 0, 50, 1000])
+    cfg = [(p, rng.random() < 0.8) for p in ps]
+    ending = ending or rng.choice(["graceful", "graceful", "stop", "cancel", "double-stop", "stop-during-graceful", "double-graceful"])
+    ops, nput = [], 0
+    open_ = set(ps)
+    for _ in range(rng.choice([6, 15, 30])):
+        r = rng.random()
+        if r < 0.5 and open_:
+            p = rng.choice(sorted(open_))
+            for _ in range(rng.choice([1, 1, 2, H])):
+                ops.append((1, p, True))
+                nput += 1
+        elif r < 0.9:
+            ops.append((4, rng.randrange(0, 8), True))
+        elif open_ and ending.startswith("graceful"):
+            p = rng.choice(sorted(open_))
+            open_.discard(p)
+            ops.append((2, p, True))
+    if ending in ("graceful", "double-graceful"):
+        for p in sorted(open_):
+            ops.append((2, p, True))
+        ops.append((10, 0, False if ending == "double-graceful" else True))
+        if ending == "double-graceful":
+            ops.append((10, 0, True))
+        for _ in range(nput + 2):
+            ops.append((4, 0, True))
+    elif ending == "stop":
+        ops.append((11, 0, True))
+    elif ending == "cancel":
+        ops.append((12, 0, True))
+    elif ending == "double-stop":
+        ops.append((11, 0, False))
+        ops.append((11, 0, True))
+    else:
+        ops.append((10, 0, True))
+        ops.append((11, 0, True))
+    if not ending.startswith("graceful") and ending != "double-graceful":
+        ops.append((1, ps[0], True))
+        ops.append((4, 0, True))
+    pb, os_ = [], []
+    for p, b in cfg:
+        pb += [p, 1 if b else 0]
+    for code, arg, stl in ops:
+        os_ += [code, arg, 1 if stl else 0]
+    enc = [10, kind, H, linger, len(pb)] + pb + [len(os_)] + os_
+    meta = {"divider": ["Fair", "Rate"][kind], "H": H, "cfg": cfg, "ops": ops, "nput": nput, "ending": ending, "linger": linger}
+    return Scenario(enc, "simple-v1-" + ending, meta, nontrivial=nput >= 1, version="v1")
+
+
+def simple1_generate(endings=None):
+    def generate(rng, tier):
+        return [gen_simple1_scenario(rng, tier, ending=rng.choice(endings) if endings else None) for _ in range(120 if tier == "quick" else 2500)]
+    return generate
+
+
+def monitor_simple1(kind):
+    def monitor(sc, ir):
+        if ir.verdict != "ok":
+            what = "implementation verdict %s %s" % (ir.verdict, ir.raw[-300:].replace("\n", " "))
+            if ir.verdict == "hang":
+                what = "Simple.Stop()/cancel did not complete (wall-clock watchdog) " + what
+            if ir.verdict == "bubble-deadlock":
+                what = "goroutines of the discipline remained blocked at the end of the scenario " + what
+            return [(what, None)]
+        m = sc.meta
+        vals = list(ir.vals)
+        final_g = None
+        if "final-goroutines" in vals:
+            k = vals.index("final-goroutines")
+            final_g = int(vals[k + 1])
+            vals = vals[:k]
+        noterm = "no-termination" in vals
+        if noterm:
+            vals.remove("no-termination")
+        extra = [0, 0, -1, 0]
+        if "extra" in vals:
+            k = vals.index("extra")
+            extra = [int(x) for x in vals[k + 1:k + 5]]
+            vals = vals[:k]
+        v = [int(x) for x in vals]
+        if v[0] != 0:
+            return []
+        pos, rows = 1, []
+        for _ in m["ops"]:
+            running, total, term, sret, gret, leaked, k = v[pos:pos + 7]
+            rows.append((running, total, term, sret, gret, leaked, v[pos + 7:pos + 7 + k]))
+            pos += 7 + k
+        H = m["H"]
+        key = "simple1:%s:%d:%s:%s" % (m["divider"], H, m["cfg"], m["ending"])
+        fails = []
+        nstop = sum(1 for o in m["ops"] if o[0] == 11)
+        ngrace = sum(1 for o in m["ops"] if o[0] == 10)
+        last = rows[-1]
+        if kind == "C01" and (extra[0] > H or any(r[0] > H for r in rows)):
+            fails.append("%d concurrent Handle calls, HandlersQuantity is %d" % (max([extra[0]] + [r[0] for r in rows]), H))
+        if kind == "C02":
+            if extra[1]:
+                fails.append("Handle invoked more than once for %d item(s)" % extra[1])
+            if m["ending"] in ("graceful", "double-graceful") and last[2] == 1 and last[1] != m["nput"]:
+                fails.append("graceful termination with Handle invoked for %d of %d items" % (last[1], m["nput"]))
+        if kind == "C07" and m["ending"] in ("graceful", "double-graceful"):
+            gi = next((i for i, r in enumerate(rows) if r[4] > 0), None)
+            if gi is None or last[4] != ngrace:
+                fails.append("GracefulStop() has not returned although every input was closed and every Handle call returned")
+            else:
+                if rows[gi][0] != 0:
+                    fails.append("GracefulStop() returned while %d Handle calls were running" % rows[gi][0])
+                if rows[gi][1] != m["nput"]:
+                    fails.append("GracefulStop() returned with %d of %d items handled" % (rows[gi][1], m["nput"]))
+        if kind == "C16" and m["ending"] in ("stop", "cancel", "double-stop", "stop-during-graceful"):
+            if last[2] != 1 or noterm:
+                fails.append("%s did not terminate the discipline" % m["ending"])
+            if last[3] != nstop:
+                fails.append("%d of %d Stop() calls have returned" % (last[3], nstop))
+            if extra[2] > 0:
+                fails.append("%d Handle calls were running when Stop() returned" % extra[2])
+            if extra[3] > 0:
+                fails.append("Handle was invoked %d times after Stop() had returned" % extra[3])
+        if kind == "C19":
+            if any(r[5] > 0 for r in rows):
+                fails.append("%d goroutine(s) started by the discipline remained after Stop()/GracefulStop() had returned" % max(r[5] for r in rows))
+            if final_g:
+                fails.append("%d goroutine(s) started by the discipline remained at the end" % final_g)
+            if noterm:
+                fails.append("the discipline never terminated")
+        return [("%s [simple v1 %s H=%d inputs=%s ending=%s linger=%d]" % (f, m["divider"], H, m["cfg"], m["ending"], m["linger"]), key) for f in fails[:3]]
+    return monitor
+
+
+SIMPLE1_RULE = ("v1 simplified discipline in a synctest bubble (monitor only): Handle honours its context (returns `linger` fake ns after it is done) "
+                "or returns when the driver lets it go; endings: graceful finale, Stop, cancel, two overlapping Stop calls, Stop during a pending "
+                "GracefulStop, two overlapping GracefulStop calls; goroutines created by the library are counted after every stop call has returned")
